@@ -44,16 +44,32 @@ func Deadline() time.Duration { return time.Duration(float64(20*time.Second) * T
 
 // Eventually polls f until it returns true or the deadline passes.
 func Eventually(d time.Duration, f func() bool) bool {
-	end := time.Now().Add(d)
-	for {
-		if f() {
-			return true
+	startLatencyMonitor()
+	for ext := 0; ; ext++ {
+		t0 := time.Now()
+		end := t0.Add(d)
+		for {
+			if f() {
+				return true
+			}
+			if time.Now().After(end) {
+				break
+			}
+			time.Sleep(5 * time.Millisecond)
 		}
-		if time.Now().After(end) {
+		// The deadline has passed. If this process was not given the CPU meanwhile
+		// (see Missf) the wait proves nothing yet: wait again, at most 6 more times.
+		if ext >= 6 || !starved(t0) {
 			return false
 		}
-		time.Sleep(5 * time.Millisecond)
 	}
+}
+
+// starved reports whether late wake-ups since t0 add up to a quarter of the
+// time, or one wake-up was a second late.
+func starved(t0 time.Time) bool {
+	worst, _, lost := Lateness(t0)
+	return lost >= 0.25 || worst >= time.Second
 }
 
 // The scheduling-latency monitor: a goroutine that sleeps 10 ms at a time and
@@ -136,7 +152,7 @@ func (cl *TCluster) Views() string {
 func Missf(c *vlib.Case, format string, args ...any) {
 	worst, mean, lost := Lateness(time.Now().Add(-3 * Deadline()))
 	msg := fmt.Sprintf(format, args...) + fmt.Sprintf(" [scheduling lateness of this process in the last %v: worst %v, mean %v, %.0f%% of the time lost]", 3*Deadline(), worst.Round(time.Millisecond), mean.Round(time.Microsecond), 100*lost)
-	if lost >= 0.25 || worst >= time.Second {
+	if starved(time.Now().Add(-3 * Deadline())) {
 		c.Harnessf("starved machine, liveness deadline inconclusive: %s", msg)
 	}
 	c.Fatalf("%s", msg)
